@@ -66,7 +66,35 @@ fn apply<const B: usize, const L: usize>(op: &str, a: Uint<B, L>, b: Uint<B, L>,
         "reduce" => (a.reduce_mod(m), false),
         "addmod" => (a.add_mod(b, m), false),
         "mulmod" => (a.mul_mod(b, m), false),
+        "wto" | "sto" | "cto" => conv(op, a, m, k),
+        "cnmo" => match a.checked_next_multiple_of(b) { Some(x) => (x, true), None => (m, false) },
+        "powmod" => (a.pow_mod(U::<B, L>::wrapping_from(k as u64), m), false),
         other => panic!("mach: unknown op {other:?}"),
+    }
+}
+
+/// Uint<B> -> Uint<K> -> Uint<B> with the three conversion disciplines; flag = the first leg was lossless.
+fn conv<const B: usize, const L: usize>(op: &str, a: Uint<B, L>, m: Uint<B, L>, k: usize) -> (Uint<B, L>, bool) {
+    use ruint::UintTryTo;
+    fn via<const B: usize, const L: usize, const K: usize, const KL: usize>(op: &str, a: Uint<B, L>, m: Uint<B, L>) -> (Uint<B, L>, bool) {
+        let r: Result<Uint<K, KL>, _> = a.uint_try_to();
+        let fits = r.is_ok();
+        match op {
+            "wto" => (a.wrapping_to::<Uint<K, KL>>().wrapping_to::<Uint<B, L>>(), fits),
+            "sto" => (a.saturating_to::<Uint<K, KL>>().saturating_to::<Uint<B, L>>(), fits),
+            _ => match r {
+                Ok(x) => (Uint::<B, L>::from(x), true),       // panics if the way back does not fit
+                Err(_) => (m, false),
+            },
+        }
+    }
+    match k {
+        1 => via::<B, L, 1, 1>(op, a, m),
+        3 => via::<B, L, 3, 1>(op, a, m),
+        63 => via::<B, L, 63, 1>(op, a, m),
+        65 => via::<B, L, 65, 2>(op, a, m),
+        200 => via::<B, L, 200, 4>(op, a, m),
+        other => panic!("mach: unknown conversion width {other}"),
     }
 }
 
